@@ -34,6 +34,7 @@ fn main() {
         "net_conc" => net::run_conc(&a),
         "net_limits" => net::run_limits(&a),
         "net_life" => net::run_life(&a),
+        "net_sync" => net::run_sync(&a),
         "node" => nodeh::run(&a),
         other => {
             eprintln!("unknown core {}", other);
